@@ -116,7 +116,7 @@ def schedule_scenarios(seed, n):
     return out
 
 
-SAMPLER_GROUPS = [(2, 1, 4), (3, 2, 4), (2, 2, 3), (3, 1, 3), (4, 16, 3), (1, 1, 4), (8, 3, 2)]
+SAMPLER_GROUPS = [(2, 1, 4), (3, 2, 4), (2, 2, 3), (3, 1, 3), (4, 16, 3), (1, 1, 4), (8, 3, 2), (2, 1, 0)]
 
 
 def user_script(rnd, end=None, allow_pause=True):
@@ -191,7 +191,7 @@ def sampler_scenarios(seed, per_group, faults="none"):
                 if kind in ("fatal", "two"):
                     sc["faults"] = [[c, rnd.choice([3, 8, 15, 25, 40]), "FatalErr"]]
                 if kind in ("storage", "two"):
-                    sc["storage_faults"] = [[(c + 1) % chains if kind == "two" else c, rnd.randrange(draws)]]
+                    sc["storage_faults"] = [[(c + 1) % chains if kind == "two" else c, rnd.randrange(max(draws, 1))]]
                 if kind == "init":
                     sc["init_fail"] = [c]
                 if kind == "model":
